@@ -8,6 +8,7 @@ import B3.Gen.RsPortable
 import B3.Gen.Arith
 import B3.Model.Rs
 import B3.B3sum.Drv
+import B3.Model.C
 open B3
 
 def hexDigit (n : Nat) : Char := if n < 10 then Char.ofNat (48 + n) else Char.ofNat (87 + n)
@@ -71,8 +72,16 @@ structure VReg where
   t0 : Nat
   bytes : List UInt8
 
+/-- a C hasher register: model state, ghost mode and absorbed bytes -/
+structure CReg where
+  h : C.Hasher
+  mode : Spec.Mode
+  absorbed : List UInt8
+
 structure DState where
   sd : Nat := 1
+  csd : Nat := 16          -- blake3_simd_degree() under the current g_cpu_features
+  cregs : List (String × CReg) := []
   hs : List (String × HReg) := []
   xs : List (String × XReg) := []
   vs : List (String × VReg) := []
@@ -84,6 +93,19 @@ def DState.getX (s : DState) (r : String) : Option XReg := (s.xs.find? (·.1 = r
 def DState.setX (s : DState) (r : String) (v : XReg) : DState :=
   { s with xs := (r, v) :: s.xs.filter (·.1 ≠ r) }
 
+
+def DState.getC (s : DState) (r : String) : Option CReg := (s.cregs.find? (·.1 = r)).map (·.2)
+def DState.setC (s : DState) (r : String) (v : CReg) : DState :=
+  { s with cregs := (r, v) :: s.cregs.filter (·.1 ≠ r) }
+
+/-- spec stream computed block-wise (same value as `Spec.Node.stream`, without recomputing a
+compression per byte) -/
+def streamFast (n : Spec.Node) (pos len : Nat) : List UInt8 :=
+  if len = 0 then [] else
+  let b0 := pos / 64
+  let b1 := (pos + len - 1) / 64
+  let bytes := (List.range (b1 - b0 + 1)).flatMap fun i => n.xofBlock (b0 + i)
+  (bytes.drop (pos % 64)).take len
 
 def DState.getV (s : DState) (r : String) : Option VReg := (s.vs.find? (·.1 = r)).map (·.2)
 def DState.setV (s : DState) (r : String) (v : VReg) : DState :=
@@ -194,13 +216,13 @@ def step (s : DState) (line : String) : DState × String :=
     | some reg, some n =>
       let pos := reg.r.position
       let (out, r') := reg.r.fill genK n
-      (s.setX x { reg with r := r' }, hexOfBytes out ++ ";" ++ hexOfBytes (reg.specNode.stream pos n))
+      (s.setX x { reg with r := r' }, hexOfBytes out ++ ";" ++ hexOfBytes (streamFast reg.specNode pos n))
     | _, _ => bad
   | ["X", "fill", x, n] => match s.getX x, n.toNat? with
     | some reg, some n =>
       let pos := reg.r.position
       let (out, r') := reg.r.fill genK n
-      (s.setX x { reg with r := r' }, hexOfBytes out ++ ";" ++ hexOfBytes (reg.specNode.stream pos n))
+      (s.setX x { reg with r := r' }, hexOfBytes out ++ ";" ++ hexOfBytes (streamFast reg.specNode pos n))
     | _, _ => bad
   | ["X", "pos", x] => match s.getX x with
     | some reg => (s, toString reg.r.position ++ ";-")
@@ -299,6 +321,50 @@ def step (s : DState) (line : String) : DState × String :=
       let sp := Spec.compress (cvOfBytes cvb) (wordsOfBytes 16 bb) (UInt64.ofNat t) (UInt32.ofNat bl) (UInt32.ofNat fl)
       (s, hexOfBytes (bytesOfWords m) ++ ";" ++ hexOfBytes (bytesOfWords sp))
     | _, _, _, _, _ => bad
+  -- ---- C library
+  | ["C", "feat", p] => match sdOfPlatform p with
+    | some sd => ({ s with csd := sd }, "ok;-")
+    | none => if p = "detect" then ({ s with csd := 16 }, "ok;-") else bad
+  | "C" :: "init" :: r :: rest => match parseMode rest with
+    | some (mode, []) =>
+      let h := match mode with
+        | .hash => C.initBase Gen.Rs.IV 0
+        | .keyed k => C.initBase (wordsOfBytes 8 k) Gen.Rs.KEYED_HASH
+        | .derive ctx => C.initDeriveKeyRaw genK s.csd ctx
+      let nulInCtx := match mode with
+        | .derive ctx => ctx.contains 0
+        | _ => false
+      if nulInCtx then bad else (s.setC r { h := h, mode := mode, absorbed := [] }, "ok;-")
+    | _ => bad
+  | ["C", "initraw", r, c] => match bytesOfHex c with
+    | some ctx => (s.setC r { h := C.initDeriveKeyRaw genK s.csd ctx, mode := .derive ctx, absorbed := [] }, "ok;-")
+    | none => bad
+  | "C" :: "upd" :: r :: rest => match s.getC r, parseData rest with
+    | some reg, some (data, []) =>
+      (s.setC r { reg with h := C.update genK s.csd reg.h data, absorbed := reg.absorbed ++ data }, "ok;-")
+    | _, _ => bad
+  | "C" :: "updtbb" :: r :: _script :: rest => match s.getC r, parseData rest with
+    | some reg, some (data, []) =>
+      -- the model's state does not depend on the join schedule; the join count is not modelled
+      (s.setC r { reg with h := C.update genK s.csd reg.h data, absorbed := reg.absorbed ++ data }, "ok;-")
+    | _, _ => bad
+  | ["C", "fin", r, n] => match s.getC r, n.toNat? with
+    | some reg, some n =>
+      (s, hexOfBytes (C.finalize genK reg.h n) ++ ";" ++ hexOfBytes (streamFast (Spec.root reg.mode reg.absorbed) 0 n))
+    | _, _ => bad
+  | ["C", "finseek", r, sk, n] => match s.getC r, sk.toNat?, n.toNat? with
+    | some reg, some sk, some n =>
+      (s, hexOfBytes (C.finalizeSeek genK reg.h sk n) ++ ";" ++ hexOfBytes (streamFast (Spec.root reg.mode reg.absorbed) sk n))
+    | _, _, _ => bad
+  | ["C", "reset", r] => match s.getC r with
+    | some reg => (s.setC r { reg with h := C.reset reg.h, absorbed := [] }, "ok;-")
+    | none => bad
+  | ["C", "clone", r, r2] => match s.getC r with
+    | some reg => (s.setC r2 reg, "ok;-")
+    | none => bad
+  | ["C", "samelive", r, r2] => match s.getC r, s.getC r2 with
+    | some a, some b => (s, (if a.h = b.h then "eq" else "ne") ++ ";-")
+    | _, _ => bad
   | [""] => (s, "")
   | "P" :: rest => match B3sum.stepLine ("P" :: rest) with
     -- b3sum ops (model of b3sum/src/main.rs); the property-level oracle for these is in the generator module
